@@ -77,6 +77,9 @@ func buildC17Shared(g *model.Gen) (*c17Shared, error) {
 			a = g.Valid(2)
 			a.Canon, a.Profile = extprof.ExtP2Name, model.SP(extprof.ExtP2Name)
 		}
+		if i == 2 {
+			a.Profile = nil // profile 1 without the (optional) profile claim
+		}
 		if i == 5 {
 			// an invalid set is read just the same
 			a.ImplID = model.BP(g.Bytes(31))
@@ -170,7 +173,22 @@ func c17Op(s *c17Shared, r *rand.Rand, gid int, clock func() int64) c17Event {
 		i := r.Intn(len(s.claims))
 		x := s.claims[i]
 		ev.obj = i
-		switch r.Intn(8) {
+		switch r.Intn(9) {
+		case 8:
+			// a goroutine's own Evidence signs the SHARED claims-set (issuing a
+			// token reads the claims, it does not own them)
+			ev.kind = "private-Evidence.Sign(shared claims)"
+			k := s.signers[r.Intn(len(s.signers))]
+			fn = func() string {
+				e := &psatoken.Evidence{Claims: x}
+				tok, err := e.Sign(k.Signer)
+				if err != nil {
+					return "sign-error: " + err.Error()
+				}
+				env, perr := refcose.Parse(tok)
+				want, _ := psatoken.EncodeClaimsToCBOR(x)
+				return fmt.Sprintf("independent=%v payload=%x payload-is-encoding=%v", perr == nil && env.Verify(k.Pub) == nil, env.Payload, perr == nil && bytes.Equal(env.Payload, want))
+			}
 		case 0:
 			ev.kind = "Validate"
 			fn = func() string { return fmt.Sprint(x.Validate()) }
@@ -413,7 +431,7 @@ func derefB(p *[]byte) []byte {
 }
 
 func runC17(c *mon.Ctx) {
-	c.Rule("worker built with the Go race detector (GORACE halt_on_error=0, reports collected and de-duplicated by the supervisor; any report with a library frame is a violation). Rounds: G in {16,32,64} goroutines x GOMAXPROCS in {2,4,16}; each goroutine runs a seeded random mix of (a) read-only operations on SHARED claims-sets (P1, P2, extension; built by setters, by direct assignment and by decoding; one invalid; an extension with a nil pointer-embedded claim group and pointer-receiver codecs - four fresh ones per round, serialised for the FIRST time by all goroutines at once, and still nil afterwards; two with 12 software components, in one of which four components are invalid in different ways - the digest of Validate and GetSoftwareComponents is the full error text) - Validate, all getters, component getters, CBOR/JSON encoding validating and not - and on SHARED Evidence (self-signed and decoded): Verify with right and wrong key, GetInstanceID, GetImplementationID, MarshalJSON; (b) operations on PRIVATE objects: NewClaims for every registered profile, setters, decode CBOR / JSON / COSE, validate, read, encode, SetClaims, ValidateAndSign, Verify, and extension-profile encode / decode through the embedding-aware codec including decodes that fail half-way (duplicate key, text key, truncated). Profiles are only ever registered while no goroutine is running: the extension before the first round and one fresh profile before EVERY round, and each round runs its concurrent pass first, so that anything initialised lazily on first use (after a registration) is initialised under concurrency. The same seeds are then run sequentially; every operation's result digest must be identical in the concurrent run (signatures: verifies + payload equality). Call/return times from one monotonic clock give the number of operation pairs that actually overlapped on the same shared object; a round without such overlaps is inconclusive. Monitor state is per goroutine and merged after Wait(). distinct_nontrivial = distinct (round configuration, operation kind, object) signatures")
+	c.Rule("worker built with the Go race detector (GORACE halt_on_error=0, reports collected and de-duplicated by the supervisor; any report with a library frame is a violation). Rounds: G in {16,32,64} goroutines x GOMAXPROCS in {2,4,16}; each goroutine runs a seeded random mix of (a) read-only operations on SHARED claims-sets (P1, P2, extension; built by setters, by direct assignment and by decoding; one invalid; an extension with a nil pointer-embedded claim group and pointer-receiver codecs - four fresh ones per round, serialised for the FIRST time by all goroutines at once, and still nil afterwards; two with 12 software components, in one of which four components are invalid in different ways - the digest of Validate and GetSoftwareComponents is the full error text) - Validate, all getters, component getters, CBOR/JSON encoding validating and not - and on SHARED Evidence (self-signed and decoded): Verify with right and wrong key, GetInstanceID, GetImplementationID, MarshalJSON; a goroutine's own Evidence signing a SHARED claims-set (one of them profile 1 without profile claim); after the mixed pass one shared decoded Evidence is verified by all goroutines at once 120 times each (right key, wrong key, non-key) and every result must be the lone caller's; (b) operations on PRIVATE objects: NewClaims for every registered profile, setters, decode CBOR / JSON / COSE, validate, read, encode, SetClaims, ValidateAndSign, Verify, and extension-profile encode / decode through the embedding-aware codec including decodes that fail half-way (duplicate key, text key, truncated). Profiles are only ever registered while no goroutine is running: the extension before the first round and one fresh profile before EVERY round, and each round runs its concurrent pass first, so that anything initialised lazily on first use (after a registration) is initialised under concurrency. The same seeds are then run sequentially; every operation's result digest must be identical in the concurrent run (signatures: verifies + payload equality). Call/return times from one monotonic clock give the number of operation pairs that actually overlapped on the same shared object; a round without such overlaps is inconclusive. Monitor state is per goroutine and merged after Wait(). distinct_nontrivial = distinct (round configuration, operation kind, object) signatures")
 	if err := extprof.Register(extprof.ExtP2Name); err != nil {
 		c.Violation("harness/register", err.Error(), nil)
 		return
@@ -487,6 +505,42 @@ func runC17(c *mon.Ctx) {
 			close(gate)
 			wg.Wait()
 			runtime.GOMAXPROCS(prev)
+			// one shared decoded Evidence verified by ALL goroutines at once, many
+			// times: every result must be the one a lone caller gets
+			{
+				he, hk := s.ev[1], s.evKeys[1]
+				wrong := s.evKeys[(1+1)%len(s.evKeys)]
+				var odd crypto.PublicKey = "not a key"
+				ref := [3]string{errStr(he.Verify(hk)), errStr(he.Verify(wrong)), errStr(he.Verify(odd))}
+				runtime.GOMAXPROCS(rc.procs)
+				var hw sync.WaitGroup
+				hgate := make(chan struct{})
+				diffs := make([]string, rc.G)
+				for gid := 0; gid < rc.G; gid++ {
+					hw.Add(1)
+					go func(gid int) {
+						defer hw.Done()
+						<-hgate
+						for i := 0; i < 120; i++ {
+							which := (gid + i) % 3
+							pk := []crypto.PublicKey{hk, wrong, odd}[which]
+							if got := errStr(he.Verify(pk)); got != ref[which] && diffs[gid] == "" {
+								diffs[gid] = fmt.Sprintf("Verify(key %d): alone %q, under concurrency %q", which, ref[which], got)
+							}
+						}
+					}(gid)
+				}
+				close(hgate)
+				hw.Wait()
+				runtime.GOMAXPROCS(prev)
+				c.Add("hammered-verify-calls", int64(rc.G*120))
+				for _, d := range diffs {
+					if d != "" {
+						c.Violation("C17/result-differs-from-sequential/hammered-Evidence.Verify", "one shared decoded Evidence verified by all goroutines at once: "+d, map[string]any{"round": fmt.Sprintf("G=%d,GOMAXPROCS=%d", rc.G, rc.procs)})
+						break
+					}
+				}
+			}
 			for gi, fresh := range s.groups {
 				c.Count("fresh-objects-first-serialised-concurrently")
 				if fresh.VendorGroup != nil {
@@ -562,4 +616,11 @@ func trunc(s string, n int) string {
 		return s[:n] + "..."
 	}
 	return s
+}
+
+func errStr(err error) string {
+	if err == nil {
+		return "<nil>"
+	}
+	return err.Error()
 }
